@@ -261,12 +261,11 @@ def check_role_of_creation(eng, ctx):
            'config.client_side true: a client reports RequestReceived for '
            'HEADERS on a never-promised even stream', node=fi.node)
     # the parity argument must be the peer's parity
-    ok = False
+    ok = cm.Every()
     for p in eng.I.run(fi):
         for e in cm.calls_to(p, '_get_or_create_stream'):
-            if len(e.args) >= 2 and \
-                    cm.parity_class(p, e.args[1]) == 'peer':
-                ok = True
+            ok(len(e.args) >= 2 and
+               cm.parity_class(p, e.args[1]) == 'peer')
     ctx.ob('FLOW.parity', fi.qual, 'inbound streams use the peer parity', ok,
            '_get_or_create_stream(frame.stream_id, AllowedStreamIDs(not '
            'client_side))', node=fi.node)
